@@ -134,8 +134,13 @@ Allowed18(p, ns) == InSet(p.wl_all, p.wl, ns) /\ ~InSet(p.bl_all, p.bl, ns)
 \* that reveals and changes nothing and is accepted - the decision itself is recorded in the evidence.)
 NoForeignAccess(o) ==
     (~Allowed18(o.priv, o.ns)) => (~o.changed /\ ~o.leaked)
+\* "listings never include items from it": whatever namespace a request addresses - also a permitted one - its answer never
+\* contains data of a namespace the user may not access (o.leaked).  Decides key lists that mix namespaces (read_mixed: the
+\* addressed namespace's key first, then keys of the other namespaces; refusing such a request as a whole is fine, which is
+\* why AllowedWorks does not speak about them).
+NeverLeaks(o) == ~o.leaked
 AllowedWorks(o) ==
-    (Allowed18(o.priv, o.ns) /\ o.spelling = "explicit") => o.d # "refused"
+    (Allowed18(o.priv, o.ns) /\ o.spelling = "explicit" /\ o.op # "read_mixed") => o.d # "refused"
 
 \* the privilege shapes and namespace spellings of the C18 product
 \* (the id of the default namespace is the empty string; it is treated like any other namespace)
@@ -202,5 +207,6 @@ Chk18 == (Mode = "chk18" /\ phase = "done") =>
     \A i \in 1..Len(Obs) :
         LET o == Obs[i] IN
         /\ NoForeignAccess(o) \/ PrintT(<<"REQ-FAILED", "NoForeignAccess", i>>)
+        /\ NeverLeaks(o) \/ ~Allowed18(o.priv, o.ns) \/ PrintT(<<"REQ-FAILED", "NeverLeaks", i>>)
         /\ AllowedWorks(o) \/ PrintT(<<"REQ-FAILED", "AllowedWorks", i>>)
 =============================================================================
